@@ -1,23 +1,25 @@
 #!/bin/sh
-# MANIFEST.setup_cmd: full offline build of the Coq development (all models, proofs and Props files).
+# MANIFEST.setup_cmd: full offline build (.vo, never -vos) of the Coq development behind every claimed check.
 set -e
 cd "$(dirname "$0")/.."
 /venv/bin/python - <<'PY'
-import sys
-sys.path.insert(0, 'lib')
-import vlib
-import importlib, os
+import importlib, json, os, sys
+sys.path.insert(0, 'lib'); sys.path.insert(0, '.'); sys.path.insert(0, 'harness')
 os.environ.setdefault('PYTHONHASHSEED', '0')
-sys.path.insert(0, '.'); sys.path.insert(0, 'harness')
+import vlib
 vlib.use_repo()
-# translator-tied properties: regenerate coq/gen/* from the source before building
-for f in sorted(os.listdir('harness')):
-    if f.startswith('C') and f.endswith('.py'):
-        H = importlib.import_module('harness.' + f[:-3])
-        if hasattr(H, 'translate'):
-            print('translate', f[:-3], H.translate(vlib.REPO) is not None)
-vlib.hygiene()
-rc, out = vlib.coq_build(None, timeout=3000)
-print(out[-3000:])
-sys.exit(rc)
+props = [c['property_id'] for c in json.load(open('MANIFEST.json'))['checks']]
+rc_all = 0
+for p in props:
+    H = importlib.import_module('harness.' + p)
+    if hasattr(H, 'translate'):
+        # translator-tied properties: regenerate coq/gen/* from the source before building
+        H.translate(vlib.REPO)
+    vlib.hygiene(f'Props/{p}.v')
+    rc, out = vlib.coq_build(f'Props/{p}.vo', timeout=3000)
+    print(p, 'build', 'ok' if rc == 0 else 'FAILED')
+    if rc:
+        print(out[-3000:])
+        rc_all = 1
+sys.exit(rc_all)
 PY
